@@ -88,6 +88,11 @@ def generate(rng, tier):
         for m in S.ALL_REQUESTS[:: (1 if tier != "quick" else 2)] + ["reboot", "bootload"]:
             t = S.sample_call(m, rng)
             cases.append({"kind": "h", "calls": [("connect", S.GOOD_PORTS, None), t], "events": list(h1) + S.nominal(t, rng), "family": "refused/%s/%s" % (n1, m)})
+    # a device that has dropped off the bus by the time it is refused: closing its port fails with pyserial's exception; the refusal
+    # (False, an error recorded, nothing kept) stands all the same
+    for c in list(cases):
+        if c["kind"] in ("c", "h") and rng.random() < 0.3:
+            cases.append(dict(c, close_raises=True, family=c["family"] + "/close-fails"))
     # legacy gates
     gates = [("servo", (500, None)), ("servo", (0, 1)), ("voltage", ()), ("query_nick", ()), ("write_nick", ("Bot",)), ("reboot", ()), ("min_version", ("2.5.5",))]
     g = 120 if tier == "quick" else 8000
@@ -118,10 +123,10 @@ def run_impl(c):
         rl = ebb_serial.min_version(port, c["want"])
         return {"ref": bool(ref), "ebb3": r3, "legacy": rl}
     if c["kind"] == "c":
-        obs = S.run_history([("connect", c["ports"], c["given"])], c["events"])
+        obs = S.run_history([("connect", c["ports"], c["given"])], c["events"], c.get("close_raises", False))
         return {"obs": S.jsonable_obs(obs)}
     if c["kind"] == "h":
-        return {"obs": S.jsonable_obs(S.run_history(c["calls"], c["events"]))}
+        return {"obs": S.jsonable_obs(S.run_history(c["calls"], c["events"], c.get("close_raises", False)))}
     script = S.Script(c["events"]); port = S.FakePort(script)
     raised, ret = None, None
     try:
